@@ -192,8 +192,13 @@ def instances(tier, seed):
     out = []
     full = tier != "quick"
     mk = lambda name, h, params, **opts: out.append(dict(name=name, harness=h, fn=HARNESSES[h], params=params, opts=dict(dict(mode="inc", wall_s=900 if not full else 3000, max_paths=300000), **opts)))
-    # CUSIP check digit: the alphanumeric space completely (split by the class of the first 3 characters for parallelism)
+    # CUSIP check digit.  thorough: the alphanumeric space completely (split by the class of the first 3 characters);
+    # quick: every class combination of the first 3 characters, 2 seed-rotated free positions, 3 seed-fixed classes
     for pat in _patterns(8, 3, "dl", "a"):
+        if not full:
+            rest = list("aa" + "".join(rnd.choice("dl") for _ in range(3)))
+            rnd.shuffle(rest)
+            pat = pat[:3] + "".join(rest)
         mk(f"cusip[{pat}]", "cusip", dict(classes=pat))
     # CUSIP with * @ #: one special character at a position, the rest any (thorough: all 8 positions; quick: 2 seed-rotated
     # positions with four of the other positions restricted to digits)
@@ -222,12 +227,14 @@ def instances(tier, seed):
         if full and pfx in ("US", "GB"):
             pats = _patterns(9, 5, "dl", "a")           # complete alphanumeric space, 32 slices
         else:
-            # digits/letters fixed at 7 seed-rotated positions, 2 positions free: 10 (quick) / 24 seeded class patterns
+            # digits/letters fixed at 7 seed-rotated positions (at most 4 letters), 2 positions free:
+            # 5 (quick) / 24 (thorough) seeded class patterns + the all-digit pattern
             pats = []
-            for _ in range(10 if not full else 24):
+            for _ in range(5 if not full else 24):
                 free = rnd.sample(range(9), 2)
-                pats.append("".join("a" if i in free else rnd.choice("dl") for i in range(9)))
-            pats = sorted(set(pats + ["ddddddddd", "lllllllll"]))
+                letters = rnd.sample([i for i in range(9) if i not in free], rnd.choice([1, 2, 3, 4]))
+                pats.append("".join("a" if i in free else ("l" if i in letters else "d") for i in range(9)))
+            pats = sorted(set(pats + ["ddddddddd"] + (["lllllllll"] if full else [])))
         for pat in pats:
             mk(f"isin[{pfx},{pat}]", "isin", dict(prefix=pfx, classes=pat))
     if full:
